@@ -78,4 +78,11 @@ def lerp (ts : List α) (cols : List (List α)) (t : α) : List α :=
   let lo := hi - 1
   let x0 := ts.getD lo (lit 0); let x1 := ts.getD hi (lit 0)
   List.zipWith (fun y0 y1 => (y1 - y0) / (x1 - x0) * (t - x0) + y0) (cols.getD lo []) (cols.getD hi [])
+/-- `_gather_rates`: every rate array gets one column per stored solution point, the kernel's rates at that point -/
+def gatherRates {κ β γ : Type} (rates : γ → List (κ × List β)) (points : List γ) : List (List (κ × List β)) := points.map rates
+
+/-- `_assemble_results`, one rate array of one target (`cols` = the columns of `ratebuffer[key]`, one per stored time): a rate with a single
+row is device-wide and handed to every target as it is, any other rate is cut to the target's rows `[lb, ub)` -/
+def assembleRate {β : Type} (cols : List (List β)) (lb ub : Nat) : List (List β) :=
+  cols.map fun c => if c.length = 1 then c else rows c lb ub
 end Res
